@@ -463,6 +463,13 @@ func isPtrToNamed(t types.Type, name string) bool {
 // package passes a function of the package (bound method / closure) for it.
 func (r *Run) internalDispatch(fn *ssa.Function, cs *callSite) (string, bool) {
 	p := r.P
+	if lc := p.localCallees(cs.Common); lc != nil {
+		var names []string
+		for _, f := range lc {
+			names = append(names, p.fnName(f))
+		}
+		return "the function value is built in this function from " + strings.Join(names, " / "), true
+	}
 	par, ok := p.resolve(cs.Common.Value).(*ssa.Parameter)
 	if !ok || par.Parent() != fn {
 		return "", false
